@@ -114,6 +114,7 @@ type FnCtx struct {
 	ghostFuncs map[string]ghostFn
 	stack      []*ssa.Function
 	assumeMode bool // specification currently evaluated is going to be assumed (not proved)
+	trigNames  map[string]string
 }
 
 type assignLoc struct {
@@ -1715,7 +1716,7 @@ func (fr *Frame) execIndexAddr(x *ssa.IndexAddr, st *State) {
 	switch xt := x.X.Type().Underlying().(type) {
 	case *types.Slice:
 		fr.safety("safe:index", x, fr.describe(x), st, fmt.Sprintf("(and (<= 0 %s) (< %s (slen %s)))", iv, iv, xv.t))
-		fr.bind(x, Val{t: fmt.Sprintf("(mkref (sobj %s) (+ (soff %s) %s))", xv.t, xv.t, iv)})
+		fr.bind(x, Val{t: fmt.Sprintf("(elemref %s %s)", xv.t, iv)})
 	case *types.Pointer:
 		arr := xt.Elem().Underlying().(*types.Array)
 		fr.nilCheck(x, x.X, xv, st)
